@@ -361,10 +361,26 @@ pub fn run_program(b: &Value, id: u64) -> RunOut {
             let _ = h.join();
         }
         // after the threads have stopped: maintenance to quiescence and the final observations
-        let fin = std::panic::catch_unwind(std::panic::AssertUnwindSafe(|| {
-            cache.sync();
-            cache.sync();
-        }));
+        // (on a helper thread: a maintenance run that never returns must not take the harness with it)
+        let (tx, rx) = std::sync::mpsc::channel();
+        let c2 = cache.clone();
+        std::thread::spawn(move || {
+            let r = std::panic::catch_unwind(std::panic::AssertUnwindSafe(|| {
+                c2.sync();
+                c2.sync();
+            }));
+            let _ = tx.send(r.is_ok());
+        });
+        let fin: Result<(), ()> = match rx.recv_timeout(Duration::from_secs(30)) {
+            Ok(true) => Ok(()),
+            Ok(false) => Err(()),
+            Err(_) => {
+                log.lock().unwrap().push(json!({"ev": "Timeout", "what": "the final sync() did not return"}));
+                let events = std::mem::take(&mut *log.lock().unwrap());
+                std::mem::forget(cache);
+                return RunOut { events, mismatch, abandoned, hang: true, steps };
+            }
+        };
         if fin.is_err() {
             log.lock().unwrap().push(json!({"ev": "Panic", "msg": crate::last_panic(), "during": "final sync"}));
             let events = std::mem::take(&mut *log.lock().unwrap());
